@@ -44,7 +44,7 @@ def gen_rule(rng):
         elif k == "arg": parts.append(b"arg" + rng.choice([b"0", b"1", b"2", b"63", b"64", b"", b"00", b"0x1", b"-1", b"1x"]) + b"=" + quote(rng.choice(ARGV), rng))
         elif k == "argpath": parts.append(b"arg" + rng.choice([b"0", b"1", b"2"]) + b"path=" + quote(rng.choice(ARGV), rng))
         elif k == "arg0namespace": parts.append(rng.choice([b"arg0namespace=", b"arg1namespace="]) + quote(rng.choice(ARGV + NAMES), rng))
-        else: parts.append(rng.choice([b"foo='bar'", b"type", b"=x", b"", b" ", b"member"]))
+        else: parts.append(rng.choice([b"foo='bar'", b"type", b"=x", b"", b" ", b"member", b" =", b"='signal'", b" = 'x'"]))
     if rng.random() < 0.15 and parts:
         parts.append(rng.choice(parts))                  # duplicate key
     sep = rng.choice([b",", b",", b", ", b" ,"])
@@ -80,6 +80,42 @@ def gen_msg(rng):
     if tys: f.append((8, ('b', 'g'), "".join(wiregen.sig(t) for t in tys).encode()))
     m.fields = f
     return m.marshal()
+
+
+def shape_ok(text):
+    """a necessary condition of the rule grammar, read independently of the C code and of the Lean model: the text is a
+    comma-separated list of key=value items - every item has a non-empty key before its '=' (values: '...' quoting, backslash
+    outside quotes, up to the next unquoted comma); white space around keys is tolerated; only white space may follow the
+    last item. Rules the implementation accepts must have this shape."""
+    ws = b" \t\n\r"
+    i, n = 0, len(text)
+    while i < n:
+        while i < n and text[i] in ws: i += 1
+        k0 = i
+        while i < n and text[i] not in ws and text[i] != 0x3d: i += 1
+        key = text[k0:i]
+        while i < n and text[i] in ws: i += 1
+        if not key:
+            return i >= n                  # nothing but white space left
+        if i >= n or text[i] != 0x3d:
+            return False
+        i += 1
+        q = 0
+        while i < n:
+            c = text[i]
+            if q == 0:
+                if c == 0x27: q = 1
+                elif c == 0x2c: break
+                elif c == 0x5c: q = 2
+            elif q == 2:
+                q = 0
+            elif c == 0x27:
+                q = 0
+            i += 1
+        if q == 1:
+            return False
+        i += 1                              # past the comma
+    return True
 
 
 def run(ctx):
@@ -142,6 +178,19 @@ def run(ctx):
             ctx.violate("match rule %s: implementation '%s' vs specification model '%s' for rule text %r" % (op.split()[1], impl[:80], model[:80], txt[:120]),
                         {"op": op, "rule_text": txt, "impl": impl, "model": model}, True)
     ml, _ = script.run_model("\n".join(lines) + "\n")
+    # the grammar's shape, as a third reading (impl = model on every line here, so the model's answers stand for both)
+    shape_bad = 0
+    for line, l in zip(lines, ml):
+        t = line.split()
+        if t[1] == "parse" and l.startswith("ok "):
+            txt = b"" if t[2] == "-" else bytes.fromhex(t[2])
+            if len(txt) <= 1024 and not shape_ok(txt):
+                shape_bad += 1
+                if shape_bad <= 3:
+                    ok = False
+                    ctx.violate("AddMatch would accept the rule text %r, which is not a comma-separated list of key=value items (an item without a key, "
+                                "or text after the last item)" % txt.decode("latin1")[:120], {"op": line, "rule_text": txt.decode("latin1"), "impl": l}, True)
+    counts["accepted_rules_checked_against_the_grammar_shape"] = sum(1 for l in ml if l.startswith("ok "))
     for l in ml:
         if l.startswith("ok "): counts["parse_ok"] += 1
         elif l == "invalid": counts["parse_invalid"] += 1
